@@ -318,6 +318,53 @@ def literal_rule(repo: Repo, rep: Report, rid: str) -> None:
               "the literal is formatted with !r", "the constant template no longer formats the value with !r", gs.loc())
 
 
+def fresh_generation_rule(repo: Repo, rep: Report, rid: str) -> None:
+    rep.rule(rid, "stubs are generated from the definitions as they are now: no generator in tools/stubgen.py is memoised (structures are mutable - add_field / "
+                  "commit change the class in place, so a cache keyed by the class would return the text of an earlier definition)")
+    mod = repo.module("tools/stubgen.py")
+    n = 0
+    for q, fi in mod.functions.items():
+        if not q.startswith("generate_"):
+            continue
+        n += 1
+        decs = [norm(d) for d in fi.node.decorator_list]
+        memo = [d for d in decs if "cache" in d.lower() or "memo" in d.lower()]
+        stores = [x for x in walk_body(fi.node.body) if isinstance(x, (ast.Global, ast.Nonlocal))]
+        rep.check(not memo and not stores, rid, f"{fi.key}:not-memoised", "generated afresh on every call",
+                  f"{q} is memoised ({memo or 'module-level state'}): after a structure is extended in place the stub generated next is the cached text of the "
+                  "old definition", fi.loc())
+    rep.floor(rid, "stub generators", n, 5)
+
+
+def rename_once_rule(repo: Repo, rep: Report, rid: str) -> None:
+    rep.rule(rid, "a typedef'd anonymous structure takes exactly one name: every store to <type>.__name__ in the parser sits under a test that reads "
+                  "<type>.__anonymous__ in the same iteration and clears the flag alongside (the stub declares a class under __name__ the first time it "
+                  "meets it and aliases the other names to it)")
+    n = 0
+    for fi in repo.module("parser.py").functions.values():
+        pm = None
+        for st in walk_body(fi.node.body):
+            if not (isinstance(st, ast.Assign) and isinstance(st.targets[0], ast.Attribute) and st.targets[0].attr == "__name__"):
+                continue
+            n += 1
+            pm = pm or parent_map(fi.node)
+            obj = norm(st.targets[0].value)
+            p_, guard, loop_crossed = pm.get(st), None, False
+            while p_ is not None and p_ is not fi.node:
+                if isinstance(p_, ast.If) and guard is None and not loop_crossed:
+                    if any(isinstance(x, ast.Attribute) and x.attr == "__anonymous__" and norm(x.value) == obj and isinstance(x.ctx, ast.Load) for x in ast.walk(p_.test)):
+                        guard = p_
+                if isinstance(p_, (ast.For, ast.While)):
+                    loop_crossed = True
+                p_ = pm.get(p_)
+            cleared = guard is not None and any(isinstance(x, ast.Assign) and norm(x.targets[0]) == f"{obj}.__anonymous__" and norm(x.value) == "False" for x in guard.body)
+            rep.check(guard is not None and cleared, rid, f"{fi.key}:rename {obj}", "renamed under a per-iteration test-and-clear of __anonymous__",
+                      f"'{short(st, 50)}' is not guarded by a test of {obj}.__anonymous__ evaluated in the same iteration (with the flag cleared alongside): "
+                      "'typedef struct {...} A, B;' renames the structure for every declarator, so it is registered as A but ends up named B and the stub "
+                      "declares no class A", fi.loc(st))
+    rep.floor(rid, "rename sites in the parser", n, 1)
+
+
 def run(repo: Repo, rep: Report, tier: str) -> None:
     template_rule(repo, rep, "C20.R1")
     sanitise_rule(repo, rep, "C20.R2")
@@ -326,3 +373,5 @@ def run(repo: Repo, rep: Report, tier: str) -> None:
     type_table_rule(repo, rep, "C20.R5")
     synthesised_name_rule(repo, rep, "C20.R6")
     literal_rule(repo, rep, "C20.R7")
+    fresh_generation_rule(repo, rep, "C20.R8")
+    rename_once_rule(repo, rep, "C20.R9")
